@@ -158,6 +158,7 @@ var specs = map[string]*CheckSpec{
 			{Name: "c07.garbage", Count: 2500},
 			{Name: "c07.unknownsig", Count: 600},
 			{Name: "c07.anydata", Count: 600},
+			{Name: "c07.cancel", Count: 1500},
 			{Name: "c07.crash", Count: 48, Extra: map[string]any{"every_byte": false, "stride": 8}},
 			{Name: "c07.race", Count: 1200},
 		},
@@ -168,10 +169,11 @@ var specs = map[string]*CheckSpec{
 			{Name: "c07.garbage", Count: 100000},
 			{Name: "c07.unknownsig", Count: 20000},
 			{Name: "c07.anydata", Count: 20000},
+			{Name: "c07.cancel", Count: 60000},
 			{Name: "c07.crash", Count: 400, Extra: map[string]any{"every_byte": true}},
 			{Name: "c07.race", Count: 40000},
 		},
-		Rule:   "each run = the real RunATPServer with a generated plugin against a scripted client drawn from a grammar of valid and invalid behaviour, under one seeded schedule; crash batches re-run a base script with end-of-input / read error / garbage at every enumerated byte offset of the client stream (thorough: every offset) plus output-side faults; batch c07.race repeats the hostile grammar in a -race build and reports SDK data races on maps (process death); distinct = schedule signature x fault point; non-trivial = a fault fired or a runnable goroutine was preempted",
+		Rule:   "each run = the real RunATPServer with a generated plugin against a scripted client drawn from a grammar of valid and invalid behaviour, under one seeded schedule; crash batches re-run a base script with end-of-input / read error / garbage at every enumerated byte offset of the client stream (thorough: every offset) plus output-side faults; batch c07.cancel also cancels the context given to RunATPServer (before it starts or after 1 ms .. 70 s of fake time) and then judges only panics, hangs and a return while the client is still connected; in every batch the server must not return while its input is open and intact; batch c07.race repeats the hostile grammar in a -race build and reports SDK data races on maps (process death); distinct = schedule signature x fault point; non-trivial = a fault fired or a runnable goroutine was preempted",
 		Real:   []string{"atp server (atp/server.go)", "schema package incl. step/signal plumbing", "fxamacker/cbor"},
 		Stub:   append([]string{"atp client -> scripted client (canonical CBOR encoder of the harness)"}, commonStub...),
 		Assume: []string{"accepted work-start = well-formed envelope of type 1 with non-empty run and step IDs and decodable body, as decided by the harness's reference decoder on the bytes actually delivered", "a panic in any server goroutine is process death (descriptors closed)"},
